@@ -202,8 +202,12 @@ def files(tmp):
     write("f_importerr", d1, "verif_plugin_imp", "x", holds="importerr",
           raw="import no_such_module_for_nanite_verif\n")
     out["f_missing"] = (d1 / "verif_plugin_missing.py", "missing")
-    # another directory, SAME file name as f_ok, other model key
-    write("f_samestem", d3, "verif_plugin_one", "verif_file5")
+    # another directory, SAME file name and function name as f_ok, other
+    # model key and OTHER CODE (twice the force: a revised model)
+    write("f_samestem", d3, "verif_plugin_one", "verif_file5",
+          raw=(MODEL_SRC % {"key": "verif_file5", "extra": ""}).replace(
+              "aa = 4/3 * E/(1-nu**2)*np.sqrt(R)",
+              "aa = 2 * 4/3 * E/(1-nu**2)*np.sqrt(R)"))
     return out, {"plug": str(plug)}
 
 
@@ -371,8 +375,11 @@ def like_shipped(md, shipped, x, fid):
             return False
         p["E"].set(value=2345.)
         q["E"].set(value=2345.)
+        # (the file of the same name in the other directory holds a revised
+        # model: twice the force)
+        scale = 2.0 if fid == "f_samestem" else 1.0
         a = md.model(p, x)
-        b = shipped.model(q, x)
+        b = shipped.model(q, x) * scale
         r1 = md.residual(p, x, b, 5e-7)
         return bool(np.array_equal(a, b) and np.all(r1 == 0))
     except BaseException as exc:
@@ -388,8 +395,8 @@ def seed_cases():
     from nanite import model
     rr = RealRegistry()
     out = []
-    names = ["E", "R", "nu"]
-    vals = {"E": 1234.5, "R": 7.7e-6, "nu": 0.31}
+    names = ["E", "R", "nu", "contact_point"]
+    vals = {"E": 1234.5, "R": 7.7e-6, "nu": 0.31, "contact_point": 3.3e-7}
     idnt = synth.make_curve(n_app=200, noise=1e-11, seed=2)
     with warnings.catch_warnings():
         warnings.simplefilter("ignore")
@@ -402,7 +409,7 @@ def seed_cases():
                     lambda: np.array([1., np.nan])[1],
                     lambda: np.float32("nan"), lambda: -np.nan]
     for ci, combo in enumerate(itertools.product(["absent", "nan", "val"],
-                                                 repeat=3)):
+                                                 repeat=4)):
         anc = dict(zip(names, combo))
         mod = build_module("verif_seed", "verif_seed")
         keys = [n for n in names if anc[n] != "absent"]
